@@ -36,6 +36,10 @@ Clause(r) ==
          IF St(r) # store \/ r.st.meta # meta THEN "read-changed-the-store"
          ELSE IF r.how = "metadata" THEN (IF r.got = meta THEN "none" ELSE "metadata-read-differs")
          ELSE IF [id |-> r.id, v |-> r.got] \in store THEN "none" ELSE "read-differs-from-stored"
+    [] r.op = "recreate" ->
+         IF r.out # "ok" THEN "recreate-raised"
+         ELSE IF St(r) # {} THEN "recreated-bucket-not-empty"
+         ELSE IF r.st.meta # meta THEN "metadata-changed" ELSE "none"
     [] r.op = "mutate" ->
          IF St(r) # store THEN "caller-mutation-changed-stored-events"
          ELSE IF r.st.meta # meta THEN "caller-mutation-changed-stored-metadata" ELSE "none"
